@@ -494,12 +494,12 @@ Proof. eexists. split; [vm_compute; reflexivity|]. vm_compute. repeat split; dis
 
 (* the auto-memmapping threshold: an array without a backing memmap is dumped to a temporary memmap iff it has
    no object dtype, a threshold is set and nbytes is STRICTLY above it; a memmap-backed array is always re-mapped *)
-Lemma forward_route_spec : forall has_backing hasobject max_nbytes nbytes,
-  exists rt, forward_route has_backing hasobject max_nbytes nbytes = Ok rt /\
+Lemma forward_route_spec : forall has_backing hasobject dtype_kind max_nbytes nbytes,
+  exists rt, forward_route has_backing hasobject dtype_kind max_nbytes nbytes = Ok rt /\
   (rt = RReduceBacked <-> has_backing = true) /\
   (rt = RDumpTemp <-> has_backing = false /\ hasobject = false /\ exists t, max_nbytes = Some t /\ t < nbytes).
 Proof.
-  intros hb ho mx nb. unfold forward_route, forward_memmaps. destruct hb.
+  intros hb ho dk mx nb. unfold forward_route, forward_memmaps. destruct hb.
   - eexists. split; [reflexivity|]. split; split; intros H; auto; try discriminate. destruct H as [H _]. discriminate.
   - cbn [bind]. destruct ho; cbn [negb andb].
     + eexists. split; [reflexivity|]. split; split; intros H; try discriminate.
@@ -512,6 +512,12 @@ Proof.
       * eexists. split; [reflexivity|]. split; split; intros H; try discriminate.
         destruct H as [_ [_ [t' [Ht _]]]]. discriminate.
 Qed.
+
+(* a structured dtype with an object field (kind 'V' = 86, hasobject) is never dumped to a temporary memmap,
+   however large: the file could not be memory-mapped by the worker *)
+Lemma object_field_never_memmapped : forall max_nbytes nbytes,
+  forward_route false true 86 max_nbytes nbytes = Ok RPickle.
+Proof. intros mx nb. unfold forward_route, forward_memmaps. destruct mx; reflexivity. Qed.
 
 (* array types: what comes back for each type that went in *)
 Lemma loaded_type_spec : forall via_mmap,
